@@ -376,13 +376,15 @@ func (r *propRun) report(prop, tier string, seed int, evPath string, noEvidence 
 	}
 	violations := 0
 	known := 0
-	replayDir := filepath.Join(verifDir, "replays", prop)
+	replayDir := filepath.Join(replayRoot(), prop)
 	var lines []string
 	for _, o := range failed {
 		isKnown := false
 		for _, f := range findings {
-			if f.kind == "finding" && f.prop == prop && f.obl != "" && strings.Contains(o.Name, f.obl) {
-				lines = append(lines, fmt.Sprintf("KNOWN-FINDING: property=%s %s", prop, f.text))
+			// a listed finding is recognised in every cone that contains its obligation (it is printed under
+			// the property it was recorded for)
+			if f.kind == "finding" && f.obl != "" && strings.Contains(o.Name, f.obl) {
+				lines = append(lines, fmt.Sprintf("KNOWN-FINDING: property=%s (seen by the check of %s) %s", f.prop, prop, strings.TrimSpace(strings.TrimPrefix(f.text, "property="+f.prop))))
 				isKnown = true
 				known++
 				break
@@ -552,7 +554,7 @@ func hasGlobalInv(cs *Contracts, pkg string) bool {
 func checkSweep(prop, tier, repo string, cs *Contracts, seed int, evPath string, noEvidence bool, t0 time.Time) int {
 	obls, genErrs, nfuncs, asmFiles, asmLines, asmBad := runSweep(repo, cs)
 	findings := loadFindings(filepath.Join(verifDir, "known_findings.txt"))
-	replayDir := filepath.Join(verifDir, "replays", prop)
+	replayDir := filepath.Join(replayRoot(), prop)
 	total, ok := 0, 0
 	violations, known := 0, 0
 	byKind := map[string]int{}
@@ -649,4 +651,13 @@ func btoi(b bool) int {
 		return 1
 	}
 	return 0
+}
+
+
+// replayRoot is /verif/replays, or $VERIF_REPLAY_ROOT when another tree is being checked (must-fail corpus).
+func replayRoot() string {
+	if d := os.Getenv("VERIF_REPLAY_ROOT"); d != "" {
+		return d
+	}
+	return filepath.Join(verifDir, "replays")
 }
